@@ -1171,7 +1171,7 @@ def op_resize(ctx, add, label, rt, site):
     else:
         rg = [(n, p) for n, p in ctx.ev if p[0] == 'range' and p[1] == 'construct']
         if len(rg) == 1 and rg[0][1][2][0] == 'raw' and rg[0][1][3] == Lin.const(0) and ctx.eq(rg[0][1][4], k): okc = True
-    if not okc and mc and all(isinstance(p[3], Bytes) and isinstance(p[1], Ptr) and isinstance(p[2], Ptr) for n, p in mc):
+    if not okc and all(isinstance(p[3], Bytes) and isinstance(p[1], Ptr) and isinstance(p[2], Ptr) for n, p in mc):          # (also no run at all: right when nothing is to be copied)
         # any other split into memcpy runs: evaluate the runs on every small buffer state consistent with the row
         newblk = al[0][1][2].base
         def copies_ok(env):
